@@ -329,7 +329,12 @@ class DetSched:
     """See the module docstring and DETSCHED.md."""
 
     def __init__(self, *, step_limit: int = 20000, wall_limit: float = 20.0, time_races: bool = False,
-                 clock0: float = 0.0, trace_lines: bool = False, trace_time: bool = True, pin_cpu: bool = True) -> None:
+                 clock0: float = 0.0, trace_lines: bool = False, trace_time: bool = True, pin_cpu: bool = True,
+                 creation_points: bool = False) -> None:
+        # opt-in: CONSTRUCTING a fake primitive in a managed thread is a scheduling point placed after the object is
+        # built and before the caller can store it (exposes lazily created locks: `if x is None: x = Lock()`);
+        # event ["new", tid, name]
+        self.creation_points = creation_points
         self.pin_cpu = pin_cpu  # one thread runs at a time: keeping all of them on ONE cpu makes hand-offs ~10x cheaper
         self._affinity: Any = None
         self.step_limit = step_limit
@@ -970,23 +975,30 @@ class FakeThreading:
         self.Timer = Timer
         self._main = _MainThreadStub()
 
+    def _created(self, obj: Any) -> Any:
+        ds = self._ds
+        if ds.creation_points and ds.tid() != MAIN:
+            ds.emit("new", obj.name)
+            ds.point(what=f"created {obj.name}")
+        return obj
+
     def Lock(self) -> FakeLock:  # noqa: N802
-        return FakeLock(self._ds)
+        return self._created(FakeLock(self._ds))
 
     def RLock(self) -> FakeRLock:  # noqa: N802
-        return FakeRLock(self._ds)
+        return self._created(FakeRLock(self._ds))
 
     def Semaphore(self, value: int = 1) -> FakeSemaphore:  # noqa: N802
-        return FakeSemaphore(self._ds, value)
+        return self._created(FakeSemaphore(self._ds, value))
 
     def BoundedSemaphore(self, value: int = 1) -> FakeSemaphore:  # noqa: N802
-        return FakeSemaphore(self._ds, value, bounded=True)
+        return self._created(FakeSemaphore(self._ds, value, bounded=True))
 
     def Event(self) -> FakeEvent:  # noqa: N802
-        return FakeEvent(self._ds)
+        return self._created(FakeEvent(self._ds))
 
     def Condition(self, lock: Any = None) -> FakeCondition:  # noqa: N802
-        return FakeCondition(self._ds, lock)
+        return self._created(FakeCondition(self._ds, lock))
 
     def _wrap(self, t: _T) -> FakeThread:
         ft = self.Thread(target=t.fn, name=t.name, daemon=t.daemon)
